@@ -84,11 +84,33 @@ static nni_reap_list aio_reap_list = {
 static void nni_aio_expire_add(nni_aio *);
 static void nni_aio_expire_rm(nni_aio *);
 
+#ifdef NNG_VERIF
+// Wraps the completion callback: the completion is "delivered" when the
+// callback begins, from then on a new completion of this aio is legitimate.
+static void
+aio_verif_cb(void *arg)
+{
+	nni_aio *aio = arg;
+	nni_mtx_lock(&aio->a_expire_q->eq_mtx);
+	aio->a_v_done = 0;
+	nni_mtx_unlock(&aio->a_expire_q->eq_mtx);
+	aio->a_v_cb(aio->a_v_arg);
+}
+#endif
+
 void
 nni_aio_init(nni_aio *aio, nni_cb cb, void *arg)
 {
 	memset(aio, 0, sizeof(*aio));
 	nni_task_init(&aio->a_task, NULL, cb, arg);
+#ifdef NNG_VERIF
+	if (cb != NULL) {
+		aio->a_v_cb           = cb;
+		aio->a_v_arg          = arg;
+		aio->a_task.task_cb  = aio_verif_cb;
+		aio->a_task.task_arg = aio;
+	}
+#endif
 	aio->a_expire  = NNI_TIME_NEVER;
 	aio->a_timeout = NNG_DURATION_INFINITE;
 	aio->a_init    = true;
@@ -343,7 +365,6 @@ nni_aio_reset(nni_aio *aio)
 			nni_verif_fail("C02",
 			    "reset-while-active aio=%p", (void *) aio);
 		}
-		aio->a_v_done = 0;
 		nni_mtx_unlock(&aio->a_expire_q->eq_mtx);
 	}
 #endif
@@ -413,7 +434,9 @@ nni_aio_start(nni_aio *aio, nni_aio_cancel_fn cancel, void *data)
 		aio->a_result    = NNG_ESTOPPED;
 		aio->a_stopped   = true;
 #ifdef NNG_VERIF
-		aio->a_v_done++;
+		if (aio->a_v_cb != NULL) {
+			aio->a_v_done++;
+		}
 #endif
 		nni_mtx_unlock(&eq->eq_mtx);
 		NNI_VERIF_EV(NNI_VE_AIO_REFUSED, aio, NNG_ESTOPPED, 0);
@@ -428,7 +451,9 @@ nni_aio_start(nni_aio *aio, nni_aio_cancel_fn cancel, void *data)
 		aio->a_result    = aio->a_abort_rv;
 		NNI_ASSERT(aio->a_result != NNG_OK);
 #ifdef NNG_VERIF
-		aio->a_v_done++;
+		if (aio->a_v_cb != NULL) {
+			aio->a_v_done++;
+		}
 #endif
 		nni_mtx_unlock(&eq->eq_mtx);
 		NNI_VERIF_EV(NNI_VE_AIO_REFUSED, aio, aio->a_result, 0);
@@ -442,7 +467,9 @@ nni_aio_start(nni_aio *aio, nni_aio_cancel_fn cancel, void *data)
 		aio->a_expire_ok = false;
 		aio->a_count     = 0;
 #ifdef NNG_VERIF
-		aio->a_v_done++;
+		if (aio->a_v_cb != NULL) {
+			aio->a_v_done++;
+		}
 #endif
 		nni_mtx_unlock(&eq->eq_mtx);
 		NNI_VERIF_EV(NNI_VE_AIO_REFUSED, aio, aio->a_result, 0);
@@ -461,7 +488,6 @@ nni_aio_start(nni_aio *aio, nni_aio_cancel_fn cancel, void *data)
 	}
 #ifdef NNG_VERIF
 	aio->a_v_active = true;
-	aio->a_v_done   = 0;
 #endif
 	nni_mtx_unlock(&eq->eq_mtx);
 	NNI_VERIF_EV(NNI_VE_AIO_BEGIN, aio, 0, 0);
@@ -535,7 +561,9 @@ nni_aio_finish_impl(
 	aio->a_skipped_callback = NULL;
 #ifdef NNG_VERIF
 	aio->a_v_active = false;
-	if (++aio->a_v_done > 1) {
+	if ((aio->a_v_cb != NULL) && (skipped_cb == NULL) &&
+	    (++aio->a_v_done > 1)) {
+		// (no callback / skipped callback: delivered inline)
 		nni_verif_fail("C02",
 		    "second-completion aio=%p result=%d done=%u",
 		    (void *) aio, (int) rv, aio->a_v_done);
@@ -771,7 +799,8 @@ nni_aio_expire_loop(void *arg)
 				aio->a_sleep  = false;
 #ifdef NNG_VERIF
 				aio->a_v_active = false;
-				if (++aio->a_v_done > 1) {
+				if ((aio->a_v_cb != NULL) &&
+				    (++aio->a_v_done > 1)) {
 					nni_verif_fail("C02",
 					    "second-completion(sleep) aio=%p",
 					    (void *) aio);
